@@ -367,6 +367,18 @@ def complete(ctx: Any) -> List[Ob]:
                     obs.append(ob(R, f, par if par is not None else c, f'{n}() awaits the goodbye sequence itself (no deadline that can cancel it part-way)', isinstance(par, ast.Await) and not scope, f'the coroutine is handed to `{norm(par.func) if isinstance(par, ast.Call) else type(par).__name__}`' if not isinstance(par, ast.Await) else ('under a timeout scope' if scope else '')))
     if sites < 1:
         raise AnalysisError('anchor vanished: an async closing routine that calls async_unregister_all_services')
+    # the asyncio front-end is a thin wrapper: each of its service routines awaits the routine of the same name on the wrapped
+    # instance with the arguments it was given, on every path, and hands back what it got (the broadcast task)
+    az = prog.cls('zeroconf.asyncio.AsyncZeroconf')
+    for wn in ('async_register_service', 'async_unregister_service', 'async_update_service', 'async_unregister_all_services'):
+        wm = az.methods.get(wn)
+        if wm is None:
+            raise AnalysisError(f'anchor vanished: AsyncZeroconf.{wn}')
+        wcfg_ = cfg_of(wm.node)
+        dele = [n for n in wcfg_.nodes if any(isinstance(x, ast.Await) and isinstance(x.value, ast.Call) and call_name(x.value) == wn and isinstance(x.value.func, ast.Attribute) and self_attr(x.value.func.value, wm.params[0]) == 'zeroconf' and (not wm.params[1:2] or (x.value.args and norm(x.value.args[0]) == wm.params[1])) for e in n.exprs() for x in ast.walk(e))]
+        byp_d = wcfg_.must_pass_before_exit(wcfg_.entry, lambda n: n in dele) if dele else [wcfg_.entry]
+        returns_it = wn == 'async_unregister_all_services' or all(n.kind == 'return' for n in dele)
+        obs.append(ob(R, wm, dele[0].ast if dele else f'await self.zeroconf.{wn}(...)', f'AsyncZeroconf.{wn} awaits the wrapped instance\'s {wn} with the description it was given, on every path' + ('' if wn == 'async_unregister_all_services' else ', and returns its result'), bool(dele) and byp_d is None and returns_it))
     return obs
 
 
